@@ -21,7 +21,7 @@ import (
 )
 
 type opIn struct {
-	T string `json:"t"`           // set del get snap snapraw reset flush reload clone clear clearsnap iter filter
+	T string `json:"t"`           // set del get snap snapraw proof reset flush reload clone clear clearsnap iter filter
 	K string `json:"k,omitempty"` // key / prefix (hex)
 	V string `json:"v,omitempty"` // value (hex)
 	I int    `json:"i,omitempty"` // snapshot index for reset
@@ -141,8 +141,10 @@ func genHistory(r *rand.Rand) histIn {
 			ops = append(ops, opIn{T: "clear"})
 		case x < 91:
 			ops = append(ops, opIn{T: "clearsnap"})
-		case x < 95:
+		case x < 93:
 			ops = append(ops, opIn{T: "iter"})
+		case x < 95:
+			ops = append(ops, opIn{T: "proof", K: hx(pick())})
 		default:
 			k := pick()
 			p := k[:r.Intn(len(k)+1)]
@@ -351,6 +353,20 @@ func runHistory(h histIn, wantCoq bool, corrupt bool) (coq string, ntbl int, ora
 			emit("OIdent")
 			observe(s, what)
 			iterate(s, nil, false, what+"/iter")
+		case "proof":
+			// GetProof as the first call on a fresh snapshot (it has to hash the trie itself),
+			// then Hash(): still the canonical 32-byte root
+			k := unhx(op.K)
+			s := mut.GetSnapshot()
+			p := s.GetProof(k)
+			emit("OIdent")
+			if _, ok := ref[string(k)]; ok && len(p) == 0 {
+				fail("%s(%x): GetProof before Hash() returns no proof for a stored key", what, k)
+			}
+			if hv := s.Hash(); len(ref) > 0 && len(hv) != 32 {
+				fail("%s: Hash() after GetProof returns %d bytes %x, not a 32-byte hash", what, len(hv), hv)
+			}
+			observe(s, what)
 		case "iter":
 			iterate(mut.GetSnapshot(), nil, false, what)
 		case "filter":
@@ -491,7 +507,7 @@ func replay(raw json.RawMessage) string {
 func main() {
 	hxlib.Main(hxlib.Spec{
 		ID:       "C17",
-		Rule:     "a case is one random history (8-48 operations: set/delete/get/snapshot/reset/flush/reload-from-hash/clone/clear-cache/iterate/filter) over 3-14 keys of length 0-4 bytes drawn from a 2-4 byte alphabet (shared prefixes) plus 32-byte keys differing in single nibbles, values of 1-70 bytes concentrated around the 32-byte inlining threshold; plus fixed histories placing leaf sizes 20..36 under a branch; non-trivial = the trie written to the database had at least two hashed nodes; distinct = distinct history",
+		Rule:     "a case is one random history (8-48 operations: set/delete/get/snapshot/unhashed snapshot/reset/flush/reload-from-hash/clone/clear-cache/iterate/filter/GetProof-before-Hash) over 3-14 keys of length 0-4 bytes drawn from a 2-4 byte alphabet (shared prefixes) plus 32-byte keys differing in single nibbles, values of 1-70 bytes concentrated around the 32-byte inlining threshold; plus fixed histories placing leaf sizes 20..36 under a branch; non-trivial = the trie written to the database had at least two hashed nodes; distinct = distinct history",
 		Shard:    20,
 		Preamble: tl.Preamble("C17"),
 		Gen:      gen, Replay: replay,
